@@ -567,6 +567,56 @@ class _Norm(ast.NodeTransformer):
             i += 1
         return out
 
+    def _genexp_private(self, g):
+        """the names a generator expression binds occur nowhere else in the function (so binding them with for statements
+        instead changes nothing that is read later)"""
+        names = set(x.id for c in g.generators for x in ast.walk(c.target) if isinstance(x, ast.Name))
+        if any(c.is_async for c in g.generators) or not all(isinstance(x, (ast.Name, ast.Tuple)) for c in g.generators for x in ast.walk(c.target)
+                                                            if not isinstance(x, ast.expr_context)):
+            return False
+        for nm in names:
+            st = sum(1 for x in ast.walk(g) if isinstance(x, ast.Name) and x.id == nm and isinstance(x.ctx, ast.Store))
+            ld = sum(1 for x in ast.walk(g) if isinstance(x, ast.Name) and x.id == nm and isinstance(x.ctx, ast.Load))
+            if self.counts.get(nm) != (st, ld):
+                return False
+        return True
+
+    @staticmethod
+    def _loops_of(g, innermost):
+        """for/if nest of a generator expression around the statements `innermost`"""
+        body = innermost
+        for c in reversed(g.generators):
+            for t in reversed(c.ifs):
+                body = [ast.If(test=t, body=body, orelse=[])]
+            body = [ast.For(target=c.target, iter=c.iter, body=body, orelse=[])]
+        return body
+
+    def _genexp_to_loops(self, stmts):
+        """N39: a search spelled with a generator expression is the loop it abbreviates:
+        return next((E for x in IT if C), D)  ->  for x in IT: if C: return E   /  return D
+        if any(E for x in IT): S              ->  for x in IT: if E: S; break          (one for clause, no else arm)"""
+        out = []
+        for st in stmts:
+            if isinstance(st, ast.Return) and isinstance(st.value, ast.Call) and isinstance(st.value.func, ast.Name) and st.value.func.id == 'next' and \
+                    len(st.value.args) == 2 and not st.value.keywords and isinstance(st.value.args[0], ast.GeneratorExp) and \
+                    isinstance(st.value.args[1], (ast.Constant, ast.Name)) and self._genexp_private(st.value.args[0]):
+                g = st.value.args[0]
+                bound = set(x.id for c in g.generators for x in ast.walk(c.target) if isinstance(x, ast.Name))
+                if not (isinstance(st.value.args[1], ast.Name) and st.value.args[1].id in bound):
+                    for x in self._loops_of(g, [ast.Return(value=g.elt)]) + [ast.Return(value=st.value.args[1])]:
+                        out.append(ast.fix_missing_locations(ast.copy_location(x, st)))
+                    continue
+            if isinstance(st, ast.If) and not st.orelse and isinstance(st.test, ast.Call) and isinstance(st.test.func, ast.Name) and st.test.func.id == 'any' and \
+                    len(st.test.args) == 1 and not st.test.keywords and isinstance(st.test.args[0], ast.GeneratorExp) and \
+                    len(st.test.args[0].generators) == 1 and self._genexp_private(st.test.args[0]) and \
+                    not any(isinstance(x, (ast.Break, ast.Continue)) for b in st.body for x in ast.walk(b)):
+                g = st.test.args[0]
+                for x in self._loops_of(g, [ast.If(test=g.elt, body=st.body + [ast.Break()], orelse=[])]):
+                    out.append(ast.fix_missing_locations(ast.copy_location(x, st)))
+                continue
+            out.append(st)
+        return out
+
     def _copy_prop(self, stmts):
         """N32: after a plain copy `x = y` (two names), the plain assignments that follow read y where they read x, until x or y
         is written again (`off = offset; end = off + n` is `end = offset + n`).  Only the right-hand sides of plain assignments to
@@ -588,7 +638,7 @@ class _Norm(ast.NodeTransformer):
         return out
 
     def _block(self, stmts):
-        stmts = self._copy_prop(self._next_to_for(self._list_extends(self._split_tuples(stmts))))
+        stmts = self._copy_prop(self._next_to_for(self._genexp_to_loops(self._list_extends(self._split_tuples(stmts)))))
         out = []
         i = 0
         while i < len(stmts):
